@@ -19,6 +19,11 @@ def parse_pdu_request_consistency(m: Model, r: Report, rid: str) -> None:
         if isinstance(s, ast.Assign) and "parse_dynamic(request.pdu)" in ast.unparse(s.value) and isinstance(s.targets[0], ast.Name):
             parsed_var = s.targets[0].id
     if parsed_var is None:
+        src_pp = ast.unparse(pp.node)
+        if "parse_dynamic(request" not in src_pp and ".matches(" in src_pp:
+            r.check(False, rid, f"{pp.qualname}#reparsed-request", "the reply is matched against the request object as given, without re-parsing request.pdu: a request sent as "
+                    "RawRequest with a well-formed PDU (send_raw) is then compared by service id only, and a stale reply of the same service is accepted", loc=pp.loc)
+            return
         raise AnalysisError("parse_pdu: dynamic parse of the request not found")
     ifs = [s for s in body if isinstance(s, ast.If)]
     okc = False
@@ -155,6 +160,121 @@ def iso_tables(m: Model, r: Report, rid: str, what: str = "both") -> None:
         r.check(not clash, rid, f"{c.qualname}#distinct-values", f"several names share a value (later ones become aliases): {clash}", loc=c.loc)
 
 
+def iso_subfunction_tables(m: Model, r: Report, rid: str) -> None:
+    """The sub-function / parameter enums of core.constants carry the ISO 14229-1 values: request and response classes, registry and server all read the
+    same enum, so a renumbered member is invisible to every internal consistency check and only the wire is wrong."""
+    from sa.oracles import iso14229
+    CONST = "gallia.services.uds.core.constants"
+    n = 0
+    for cname, table in iso14229.SUBFUNCTION_TABLES.items():
+        c = m.require_class(f"{CONST}.{cname}")
+        mem = m.enum_members(c)
+        if not mem:
+            raise AnalysisError(f"{c.qualname}: enum members not found")
+        n += 1
+        wrong = {k: (mem.get(k), v) for k, v in table.items() if k in mem and mem.get(k) != v}
+        taken = {v: k for k, v in table.items()}
+        foreign = {k: v for k, v in mem.items() if k not in table and isinstance(v, int) and v in taken and taken[v] not in mem}
+        r.check(not wrong, rid, f"{c.qualname}#iso-values",
+                "; ".join(f"{k} = {got:#04x} (ISO 14229-1: {want:#04x})" for k, (got, want) in sorted(wrong.items())[:4]), loc=c.loc)
+        dup = {}
+        for k, v in mem.items():
+            dup.setdefault(v, []).append(k)
+        clash = {hex(v): ks for v, ks in dup.items() if len(ks) > 1 and isinstance(v, int)}
+        r.check(not clash, rid, f"{c.qualname}#distinct-values", f"several names share a value (later ones become aliases): {clash}", loc=c.loc)
+        unknown = sorted(k for k in mem if k not in table)
+        if unknown:
+            r.note("enum members without an oracle value", f"{c.qualname}: {unknown}")
+    if n < 8:
+        raise AnalysisError("sub-function enums not found")
+
+
+def serialiser_keeps_order(m: Model, r: Report, rid: str, base_qual: str) -> int:
+    """Serialisers write repeated records in the order in which they are stored (= received): no serialising method of a codec class iterates
+    `sorted(...)`, `reversed(...)` or a `set(...)` of one of its stored collections."""
+    PARSE = {"__init__", "_from_pdu", "from_pdu", "parse_dynamic", "matches", "_check_pdu", "__repr__", "__str__"}
+    base = m.require_class(base_qual)
+    n = 0
+    for c in [base] + list(m.subclasses(base)):
+        for f in list(c.methods.values()) + list(getattr(c, "properties", {}).values() if isinstance(getattr(c, "properties", None), dict) else []):
+            if f.name in PARSE:
+                continue
+            n += 1
+            for call in ast.walk(f.node):
+                if isinstance(call, ast.Call) and isinstance(call.func, ast.Name) and call.func.id in ("sorted", "reversed", "set", "frozenset") and call.args and \
+                        any(isinstance(x, ast.Attribute) and isinstance(x.value, ast.Name) and x.value.id == "self" for x in ast.walk(call.args[0])):
+                    in_iter = any((isinstance(p, (ast.For, ast.comprehension)) and any(x is call for x in ast.walk(p.iter))) for p in ast.walk(f.node))
+                    r.check(not in_iter, rid, f"{f.qualname}#stored-order", f"`{ast.unparse(call)[:70]}` iterates a stored collection in another order than it was received: "
+                            "a valid PDU with records in a different order re-serialises as a permutation of its bytes", loc=f"{f.module.relpath}:{call.lineno}")
+    return n
+
+
+def range_helpers_rule(m: Model, r: Report, rid: str) -> None:
+    """The value-range helpers of core.utils accept exactly the documented closed ranges (finite-domain evaluation at and around both ends):
+    check_data_identifier 0..0xFFFF, check_sub_function 0..0x7F, check_range(lo..hi) inclusive."""
+    from sa.util import accepts_domain
+    U = "gallia.services.uds.core.utils"
+    for helper, lo, hi in (("check_data_identifier", 0, 0xFFFF), ("check_sub_function", 0, 0x7F)):
+        dom = [lo - 1, lo, lo + 1, hi - 1, hi, hi + 1]
+        refused = accepts_domain(m, f"{U}.{helper}", dom)
+        r.check(refused == [lo - 1, hi + 1], rid, f"{U}.{helper}#closed-range", f"{helper} refuses {[hex(v) for v in refused]} of {[hex(v) for v in dom]}: it must accept exactly "
+                f"{lo:#x}..{hi:#x} (a refused end value makes valid requests / replies with that identifier unparsable)", loc="src/gallia/services/uds/core/utils.py")
+    from sa import miniterp
+    cr = m.require_function(f"{U}.check_range")
+    pars = cr.params()
+    if len(pars) != 4:
+        raise AnalysisError(f"{cr.qualname}: expected (data, name, min_value, max_value)")
+    bad = []
+    for v in (4, 5, 6, 9, 10, 11):
+        try:
+            miniterp.run_function(cr.node, {pars[0]: v, pars[1]: "x", pars[2]: 5, pars[3]: 10}, lambda call, env: "" if ast.unparse(call.func) in ("int_repr", "g_repr", "hex", "repr", "str") else NotImplemented)
+            got = True
+        except miniterp.Raised:
+            got = False
+        if got != (5 <= v <= 10):
+            bad.append(v)
+    r.check(not bad, rid, f"{cr.qualname}#closed-range", f"check_range(v, .., 5, 10) decides wrongly for {bad}: both bounds are inclusive", loc=cr.loc)
+
+
+def client_helpers_forward_config(m: Model, r: Report, rid: str) -> int:
+    """Every UDSClient service helper that takes a per-request config hands it to self.request(...): the config carries the caller's tags (ANALYZE marks a row
+    as emphasized in the database), retry and timeout overrides."""
+    client = m.require_class("gallia.services.uds.core.client.UDSClient")
+    n = 0
+    for name, fn in client.methods.items():
+        if "config" not in fn.params():
+            continue
+        calls = [c for c in ast.walk(fn.node) if isinstance(c, ast.Call) and isinstance(c.func, ast.Attribute) and isinstance(c.func.value, ast.Name) and c.func.value.id == "self"
+                 and c.func.attr in ("request", "_request", "request_unsafe", "send_raw")]
+        for c in calls:
+            n += 1
+            okc = any(isinstance(a, ast.Name) and a.id == "config" for a in c.args[1:]) or any(k.arg == "config" and isinstance(k.value, ast.Name) and k.value.id == "config" for k in c.keywords)
+            r.check(okc, rid, f"{fn.qualname}#forwards-config", f"`{ast.unparse(c)[:70]}` does not receive the caller's config: tags (ANALYZE -> emphasized rows), max_retry and "
+                    "timeout overrides of this call are lost", loc=f"{fn.module.relpath}:{c.lineno}")
+    return n
+
+
+def request_codec_obligations(m: Model, r: Report, rid: str, tier: str, rules: tuple[str, ...] = ("R1", "R3", "R4", "R11")) -> int:
+    """Re-evaluates the request codec obligations of C01 (byte identity, suppress-bit routing, no raising serialiser, round-trip guard) for a property that
+    depends on well-formed requests being parsed as typed requests (the virtual ECU applies its rules to the typed request; an unparsable one gets 0x13)."""
+    from checks import c01 as _c01
+    from sa.report import Report as _Report
+    sub = _Report("C01", tier, "")
+    try:
+        _c01.run(m, sub, tier)
+    except AnalysisError as e:
+        if not any(v["rule"] in rules for v in sub.violations):
+            raise AnalysisError(f"request codec analysis (C01 engine) stopped: {e}")
+    n = sum(1 for o in sub.obligations if o["rule"] in rules)
+    if n < 80:
+        raise AnalysisError(f"only {n} request codec obligations evaluated")
+    for v in sub.violations:
+        if v["rule"] in rules:
+            r.check(False, rid, f"request-codec:{v['construct']}", "a well-formed request is not parsed as the typed request it is: " + v["message"][:500], loc=v["loc"])
+    r.ok(rid, "request-codec", f"{n} request codec obligations hold")
+    return n
+
+
 def sub_function_split_rule(m: Model, r: Report, rid: str) -> None:
     """utils.sub_function_split(b) == (b & 0x7F, bit 7 of b set) for every byte value, decided by evaluating its return expression for 0..255."""
     from sa import miniterp
@@ -192,6 +312,10 @@ def reconnect_unsafe_rule(m: Model, r: Report, rid: str) -> None:
             "reconnect_unsafe can return without `self.transport = await self.transport.reconnect(...)`: the retry is then sent on the dead connection"
             + (": " + " -> ".join(repr(g.nodes[p]) for p in path[-3:]) if path else ""), loc=ru.loc)
     tpar = ru.params()[1] if len(ru.params()) > 1 else "timeout"
+    rebound = [ast.unparse(n)[:60] for n in ast.walk(ru.node) if (isinstance(n, ast.Assign) and any(ast.unparse(t) == tpar for t in n.targets)) or
+               (isinstance(n, (ast.AugAssign, ast.AnnAssign, ast.NamedExpr)) and ast.unparse(n.target) == tpar)]
+    r.check(not rebound, rid, f"{ru.qualname}#timeout-not-rebound", f"the timeout is replaced before it reaches the transport ({rebound}): None means 'one connection attempt, "
+            "fail with that ConnectionError'; a substituted value turns a lost connection into a retry loop that ends in a bare TimeoutError without cause", loc=ru.loc)
     for c in calls:
         args = [ast.unparse(a) for a in c.args] + [f"{k.arg}={ast.unparse(k.value)}" for k in c.keywords]
         r.check(args in ([tpar], [f"timeout={tpar}"]), rid, f"{ru.qualname}#timeout-unchanged",
